@@ -192,7 +192,7 @@ def _locate_failed(props, out):
     starts = [(i + 1, re.match(r"\s*(?:@\[[^\]]*\]\s*)?theorem\s+(\S+)", l).group(1)) for i, l in enumerate(lines)
               if re.match(r"\s*(?:@\[[^\]]*\]\s*)?theorem\s+(\S+)", l)]
     bad = set()
-    for m in re.finditer(r"%s:(\d+):\d+" % re.escape(props.name), out):
+    for m in re.finditer(r"error: [^\n]*?%s:(\d+):\d+" % re.escape(props.name), out):
         ln = int(m.group(1))
         cand = [n for (s, n) in starts if s <= ln]
         if cand:
